@@ -307,10 +307,8 @@ class Session:
             def two(u):
                 for f_ in u.b.formulas.values():
                     f_.set_id_manager(u.b.id_manager)
-                # a part of the formula is first evaluated on its own (temporary numbering, then restored)
                 kids = u.ll.get_children()
                 if kids:
-                    kids[0].get_value_c(database=u.db, aggregation=True, prepare_ids=True)
                     # derivatives of a PART of the formula reported by name while the numbering of the whole formula is in
                     # force: each entry belongs to the parameter it is labelled with (checked against finite differences
                     # of the same part, by name)
@@ -326,8 +324,6 @@ class Session:
                             self.ctx.probe('part of a bound formula that lacks some of its parameters')
                             break
                         queue += list(c_.get_children())
-                    for f_ in u.b.formulas.values():
-                        f_.set_id_manager(u.b.id_manager)
                     out = kid.get_value_and_derivatives(betas=pt, database=u.db, aggregation=True, prepare_ids=False,
                                                         named_results=True, gradient=True, hessian=False, bhhh=False)
                     for nm_, g_ in out.gradient.items():
@@ -344,6 +340,8 @@ class Session:
                                                        f'finite differences with respect to {nm_} give {fd_!r} '
                                                        f'(all entries: {dict(out.gradient)})')
                     self.ctx.probe('derivatives of a part of a bound formula reported by name')
+                    # ... then a part of the formula is evaluated on its own (temporary numbering, restored afterwards)
+                    kids[0].get_value_c(database=u.db, aggregation=True, prepare_ids=True)
                 v1 = float(u.ll.get_value_c(database=u.db, betas={u.nm(n): v for n, v in x.items()}, aggregation=True,
                                             prepare_ids=False))
                 v2 = float(u.ll.get_value_c(database=u.db, betas={u.nm(n): v for n, v in {**over, **named_fixed}.items()},
